@@ -25,7 +25,8 @@ func vfConnRun(sc vfScript) []map[string]any {
 	ops, _ := sc.Cfg["ops"].([]any)
 	waitersAny, _ := sc.Cfg["waiters"].([]any)
 	calls, _ := vfNum(sc.Cfg, "calls")
-	withCancel, _ := vfBool(sc.Cfg, "cancel")
+	cancelWho, _ := sc.Cfg["cancel"].(string)
+	withCancel := cancelWho != "" && cancelWho != "none"
 	peersAny, _ := sc.Cfg["peers"].([]any)
 	var peers []string
 	for _, p := range peersAny {
@@ -50,6 +51,8 @@ func vfConnRun(sc vfScript) []map[string]any {
 			}
 		}
 	})
+	var cancels []context.CancelFunc
+	ctargets := []string{}
 	var wnames []string
 	for _, w := range waitersAny {
 		wnames = append(wnames, w.(string))
@@ -59,9 +62,15 @@ func vfConnRun(sc vfScript) []map[string]any {
 		w := w
 		cur := PeersConnectedness{}
 		curs[w] = cur
+		wctx, wcancel := context.WithCancel(ctx)
+		defer wcancel()
+		if cancelWho == "all" || cancelWho == w {
+			cancels = append(cancels, wcancel)
+			ctargets = append(ctargets, w)
+		}
 		c.Spawn(w, func() {
 			for i := 0; i < calls; i++ {
-				upd, ok := m.WaitForConnectednessChange(ctx, "g", cur)
+				upd, ok := m.WaitForConnectednessChange(wctx, "g", cur)
 				names := []string{}
 				for _, p := range upd {
 					names = append(names, string(p))
@@ -77,7 +86,9 @@ func vfConnRun(sc vfScript) []map[string]any {
 	if withCancel {
 		c.Spawn("cancel", func() {
 			verifsched.Point("c_cancel")
-			cancel()
+			for _, f := range cancels {
+				f()
+			}
 		})
 	}
 	scen, _ := vfNum(sc.Cfg, "scen")
@@ -120,7 +131,7 @@ func vfConnRun(sc vfScript) []map[string]any {
 		ev["ret"] = rl
 	}
 	emit := func(r verifsched.Rec, ok bool) {
-		ev := map[string]any{"ev": "step", "t": r.Thread, "from": r.From, "to": r.To, "p": r.Progress, "ok": ok}
+		ev := map[string]any{"ev": "step", "t": r.Thread, "from": r.From, "to": r.To, "p": r.Progress, "ok": ok, "ctargets": ctargets}
 		snapshot(ev)
 		out = append(out, ev)
 	}
